@@ -47,6 +47,9 @@ pub enum Fault {
     Syntax,
     /// `include "missing_<n>.td"`
     MissingInclude,
+    /// an unfinished statement as the very last token of the file, no final line break: the
+    /// error sits at end of file (zero-length range)
+    EofSyntax,
 }
 
 /// One version of one file.
@@ -76,6 +79,10 @@ pub struct TextSpec {
     pub inline_wide: bool,
     /// spell include paths as "./name" (the same file, written differently)
     pub dotted: bool,
+    /// trailing blanks and a comment after statements (trivia after the last token)
+    pub trail: bool,
+    /// the text does not end with a line break
+    pub no_final_eol: bool,
     /// add multi-line constructs: a defset with an anonymous def, a class whose template
     /// arguments continue on the next line, let / foreach blocks, a def spanning two lines
     pub rich: bool,
@@ -147,7 +154,21 @@ impl TextSpec {
             Some(Fault::UndefinedClass) => s.push_str(&format!("def E_{f} : U_{f};{e}")),
             Some(Fault::Syntax) => s.push_str(&format!("class S_{f} {{ int }}{e}")),
             Some(Fault::MissingInclude) => s.push_str(&format!("include \"missing_{f}.td\"{e}")),
+            Some(Fault::EofSyntax) => s.push_str(&format!("def E_{f} : K_{k}")),
             None => {}
+        }
+        if self.trail {
+            // trivia after the last token of every statement line
+            let tail = format!("   // t {}", wide(self.alphabet, n + 2));
+            s = s
+                .split(e)
+                .map(|l| if l.ends_with(';') || l.ends_with('}') { format!("{l}{tail}") } else { l.to_string() })
+                .collect::<Vec<_>>()
+                .join(e);
+        }
+        if self.no_final_eol && s.ends_with(e) {
+            let cut = s.len() - e.len();
+            s.truncate(cut);
         }
         s
     }
@@ -244,10 +265,11 @@ pub fn gen_text(rng: &mut Rng, vs: &mut Versions, key: &str, includable: &[&str]
         }
     }
     let fault = if cfg.allow_faults && rng.chance(1, 3) {
-        Some(match rng.below(if cfg.allow_syntax_fault { 3 } else { 2 }) {
+        Some(match rng.below(if cfg.allow_syntax_fault { 4 } else { 2 }) {
             0 => Fault::UndefinedClass,
             1 => Fault::MissingInclude,
-            _ => Fault::Syntax,
+            2 => Fault::Syntax,
+            _ => Fault::EofSyntax,
         })
     } else {
         None
@@ -268,6 +290,8 @@ pub fn gen_text(rng: &mut Rng, vs: &mut Versions, key: &str, includable: &[&str]
         inline_wide: cfg.alphabet != Alphabet::Ascii && rng.chance(1, 2),
         rich: rng.chance(1, 3),
         dotted: rng.chance(1, 6),
+        trail: rng.chance(1, 5),
+        no_final_eol: rng.chance(1, 5),
     }
 }
 
@@ -275,7 +299,9 @@ pub fn gen_text(rng: &mut Rng, vs: &mut Versions, key: &str, includable: &[&str]
 pub fn edit_text(rng: &mut Rng, vs: &mut Versions, prev: &TextSpec, includable: &[&str], cfg: &GenCfg) -> TextSpec {
     let mut t = prev.clone();
     t.version = vs.next();
-    match rng.below(10) {
+    match rng.below(12) {
+        11 => t.no_final_eol = !t.no_final_eol,
+        10 => t.trail = !t.trail,
         9 => t.dotted = !t.dotted,
         7 => t.joined = !t.joined,
         8 => t.rich = !t.rich,
@@ -298,7 +324,7 @@ pub fn edit_text(rng: &mut Rng, vs: &mut Versions, prev: &TextSpec, includable: 
             t.fault = match t.fault {
                 Some(_) => None,
                 None => Some(if cfg.allow_syntax_fault && rng.chance(1, 3) {
-                    Fault::Syntax
+                    if rng.chance(1, 2) { Fault::Syntax } else { Fault::EofSyntax }
                 } else if rng.chance(1, 2) {
                     Fault::UndefinedClass
                 } else {
@@ -607,6 +633,11 @@ pub fn gen_converge(rng: &mut Rng) -> Scenario {
     let paced = rng.chance(1, 3);
     let n_notifs = rng.range(2, 7);
     for i in 0..n_notifs {
+        if !b.open.is_empty() && rng.chance(1, 8) {
+            let paths: Vec<String> = b.open.keys().cloned().collect();
+            let picked: String = rng.pick(&paths).clone();
+            close_doc(&mut b, &key_of_path(&picked));
+        }
         let k = *rng.pick(&docs);
         touch(rng, &mut b, &keys, k, &cfg, true, false);
         if rng.chance(1, 2) {
